@@ -301,12 +301,12 @@ def apply_prop_filter(el, ab):
 
 async def apply_filter(el, resource):
     """Compile a filter element into a Python function."""
-    if el is None or not list(el):
-        # Empty filter, let's not bother parsing
-        return lambda x: True
     ab = await addressbook_from_resource(resource)
     if ab is None:
         return False
+    if el is None or not list(el):
+        # Empty filter: every vCard matches
+        return True
     test_name = el.get("test", "anyof")
     test = {"allof": all, "anyof": any}[test_name]
     return test(apply_prop_filter(subel, ab) for subel in el)
